@@ -48,7 +48,8 @@ ASSUMPTIONS = [
 ]
 RULE = ("nested values generated from one PRNG to depth 5 over list/tuple/namedtuple/set/dict (nested hashable keys)/dataclass "
         "(18 classes: frozen x slots x init/non-init/__post_init__ fields, generic) with tagged and raw leaves (int, str, None, "
-        "frozenset, list/dict subclasses, OrderedDict, dataclass types); each value goes through the real iter_nested_value and "
+        "frozenset, list/dict subclasses, OrderedDict, dataclass types; namedtuples include subclasses of collections.namedtuple and "
+        "typing.NamedTuple classes); each value goes through the real iter_nested_value and "
         "map_nested_value (injective tagging function, and a collapsing one) and through the Lean model (iterNested, visited, "
         "mapPy); iterator order and call order are compared exactly, results after canonicalising sets/dicts. distinct = "
         "distinct value texts; non-trivial = the value has at least one container")
@@ -109,7 +110,29 @@ class P3(typing.NamedTuple):
     c: object = None
 
 
-NTUPLES = {"P2": (P2, 2), "P1": (P1, 1), "P0": (P0, 0), "P3": (P3, 3)}
+class P2Sub(P2):
+    """subclass of a collections.namedtuple class, with an extra method (the usual way to add behaviour to a namedtuple)"""
+    __slots__ = ()
+
+    def norm(self):
+        return (self.x, self.y)
+
+
+class P2SubSub(P2Sub):
+    __slots__ = ()
+
+
+class P3Sub(P3):
+    """subclass of a typing.NamedTuple class"""
+
+
+class P1Sub(P1):
+    pass
+
+
+# namedtuple = instance of a tuple subclass whose type has `_fields` (NOT "a class whose direct base is tuple")
+NTUPLES = {"P2": (P2, 2), "P1": (P1, 1), "P0": (P0, 0), "P3": (P3, 3),
+           "P2Sub": (P2Sub, 2), "P2SubSub": (P2SubSub, 2), "P3Sub": (P3Sub, 3), "P1Sub": (P1Sub, 1)}
 
 DCLASSES = {}     # name -> (cls, [(field, init)], frozen, has_dict)
 
@@ -396,6 +419,8 @@ CORPUS = [
     lambda: make_dc("DM", [Leaf("n"), Leaf("a"), Leaf("m"), Leaf("b")]),
     lambda: {(Leaf("k1"), Leaf("k2")): [Leaf("v")], P2(Leaf("x"), Leaf("y")): {Leaf("e1"), Leaf("e2")}},
     lambda: [P3(Leaf("a"), (Leaf("b"),)), P0(), P1([Leaf("c")])],
+    lambda: P2Sub(Leaf("x"), Leaf("y")),
+    lambda: [P3Sub(Leaf("a"), P2SubSub(Leaf("b"), [Leaf("c")])), {P1Sub(Leaf("k")): P2Sub(Leaf("v"), P2(Leaf("w"), Leaf("z")))}],
     lambda: {Leaf("a"): Leaf("b"), Leaf("c"): Leaf("d")},
     lambda: [[], (), {}, set(), [[[Leaf("deep")]]]],
     lambda: [frozenset([1]), MyList([Leaf("hidden")]), collections.OrderedDict(a=Leaf("hidden")), D2],
@@ -435,11 +460,16 @@ def check_value(ctx, v, utils, stream):
     log = []
 
     def f_inj(x):
-        log.append(atom(x))
-        return Leaf("m:" + atom(x))
+        a = to_sx(x)
+        if a.startswith("("):           # func applied to something the harness reads as a container
+            log.append(a)
+            return Leaf("m:<container>")
+        log.append(a)
+        return Leaf("m:" + a)
 
     def f_col(x):
-        return Leaf("c:" + atom(x)[-1:])
+        a = to_sx(x)
+        return Leaf("c:<container>" if a.startswith("(") else "c:" + a[-1:])
 
     err = None
     try:
@@ -598,7 +628,8 @@ def scheduler_stage(ctx, g):
             return mk(a for a, _ in xs), mk(b for _, b in xs)
         if k == "nt":
             xs = [build(depth - 1, hashable) for _ in range(2)]
-            return P2(*[a for a, _ in xs]), P2(*[b for _, b in xs])
+            cls = rng.choice([P2, P2, P2Sub, P2SubSub])
+            return cls(*[a for a, _ in xs]), cls(*[b for _, b in xs])
         if k == "set":      # ints only: hashing a top-level set sorts it (mixed element types are C16's subject)
             xs = [rng.randrange(50) for _ in range(n)]
             return set(xs), set(xs)
@@ -619,6 +650,8 @@ def scheduler_stage(ctx, g):
     fixed = [      # expressions inside composite dict keys (tuple, namedtuple, frozen dataclass) and as a bare key
         ({("k", inc(1)): inc(2)}, {("k", 101): 102}),
         ({P2(inc(3), 4): [inc(5)]}, {P2(103, 4): [105]}),
+        (P2Sub(inc(12), [inc(13)]), P2Sub(112, [113])),                 # subclasses of namedtuple classes
+        ([P3Sub(inc(14), 1, (inc(15),)), {P2SubSub(1, inc(16)): P1Sub(inc(17))}], [P3Sub(114, 1, (115,)), {P2SubSub(1, 116): P1Sub(117)}]),
         ({make_dc("D2F", [inc(6), 7]): inc(8)}, {make_dc("D2F", [106, 7]): 108}),
         ({inc(9): 1, (inc(10), (inc(11),)): 2}, {109: 1, (110, (111,)): 2}),
     ]
@@ -627,17 +660,21 @@ def scheduler_stage(ctx, g):
         text = to_sx_expr(expr)
         try:
             got = sched.run(expr)
-            gtext = to_sx(got)
         except Exception as e:  # noqa: BLE001
             got = None
             gtext = "!" + type(e).__name__ + ": " + str(e)[:100]
+        else:
+            try:
+                gtext = to_sx(got)
+            except TypeError:           # an Expression (or another non-literal) is still inside the result
+                gtext = "?unevaluated " + to_sx_expr(got)
         ctx.case(key="sched:" + text, stream="scheduler", outcome="raised" if got is None else "evaluated")
         if gtext.startswith("!"):
             sig = "C19-map-raises-frozen-noninit-dataclass" if "FrozenInstanceError" in gtext else (
                 "C19-map-raises-slots-dataclass" if "__dict__" in gtext else "C19-scheduler-nested-raises")
             ctx.violation(sig, "Scheduler.run of a nested value with expressions raised", case=text,
                           expected=to_sx(want), actual=gtext)
-        elif canon(parse(gtext)) != canon(parse(to_sx(want))):
+        elif gtext.startswith("?") or canon(parse(gtext)) != canon(parse(to_sx(want))):
             ctx.violation("C19-nested-expression-not-evaluated", "Scheduler.run did not replace every nested expression by its value",
                           case=text, expected=to_sx(want), actual=gtext)
 
